@@ -447,6 +447,33 @@ def b_is_adaptor_call(b, bi):
 _conds = {}
 
 
+def _is_zero(b, o):
+    if o["k"] == "const":
+        return o.get("v") in ("0", "0_usize")
+    if o["p"]["pr"]:
+        return False
+    ds = defs_of(b, o["p"]["l"])
+    return len(ds) == 1 and ds[0][1] != "t" and ds[0][2]["k"] == "use" and ds[0][2]["o"]["k"] == "const" and ds[0][2]["o"].get("v") in ("0", "0_usize")
+
+
+def _is_length(b, o, depth=0):
+    """operand o is the length of a slice / vector (a `len()` call or the pointer metadata of a slice)"""
+    if o["k"] == "const" or o["p"]["pr"] or depth > 4:
+        return False
+    ds = defs_of(b, o["p"]["l"])
+    if len(ds) != 1:
+        return False
+    _bi, si, r = ds[0]
+    if si == "t":
+        cn = callee_names(r)
+        return bool(cn) and cn[-1].rsplit("::", 1)[-1] == "len"
+    if r["k"] == "un" and r.get("op") == "PtrMetadata":
+        return True
+    if r["k"] == "use":
+        return _is_length(b, r["o"], depth + 1)
+    return False
+
+
 def check_fields(fg, res, val_o):
     _conds.clear()
     fam = {k: b for k, b in fg.bodies.items() if b.owner == val_o}
@@ -510,15 +537,30 @@ def check_fields(fg, res, val_o):
                     for x_ in later:
                         origin.setdefault(b.blocks[x_]["thr"][0] if b.blocks[x_].get("thr") else x_, x_)
                     later = sorted(origin.values())
-                    if len(later) != 1:
+                    if not later:
                         continue
+                    # an or-pattern over a tuple of facts (`(None, _) | (_, false) => return Err(..)`) tests the same
+                    # flag in more than one place: every one of those branches has to reject
+                    more_sw = later[1:]
                     sw_b = later[0]
                     tt = b.blocks[sw_b]["t"]
                     # a negation on the way flips the polarity: follow only plain moves here
-                    if any(st2["k"] == "assign" and st2["r"]["k"] == "un" for st2 in b.blocks[sw_b]["s"]):
+                    if any(st2["k"] == "assign" and st2["r"]["k"] == "un" for x2 in later for st2 in b.blocks[x2]["s"]):
                         continue
+                else:
+                    more_sw = []
                 tm = {v: tb for v, tb in tt["ts"]}
                 zero, other = tm.get("0"), tt["else"]
+
+                def _all_closed(kind):
+                    """kind: 'zero' / 'other' - the reject edge of every switch on this flag is fail-closed"""
+                    for x2 in [sw_b] + list(more_sw):
+                        t2 = b.blocks[x2]["t"]
+                        tm2_ = {v: tb for v, tb in t2["ts"]}
+                        r2 = tm2_.get("0") if kind == "zero" else t2["else"]
+                        if r2 is None or not edge_fail_closed(b, x2, r2)[0]:
+                            return False
+                    return True
                 for idx_f, bnd_f, bnd_c, flip in ((fa, fc, cc, False), (fc, fa, ca, True)):
                     for name in ("p_own", "p_eval", "p_out"):
                         if idx_f == {name} and is_bound(bnd_f, bnd_c):
@@ -535,14 +577,19 @@ def check_fields(fg, res, val_o):
                                 if found[name] is None:
                                     found[name] = ("weak", b, bi, "comparison `%s` is not the range idiom idx >= n / idx < n" % o)
                                 continue
-                            okc, _ = edge_fail_closed(b, sw_b, rej)
+                            okc = _all_closed("other" if o == "Ge" else "zero")
                             found[name] = ("ok" if okc else "open", b, bi, "idx %s party count, reject edge %s" % (o, "only reaches Err" if okc else "can reach Ok"))
                 # inputs.len() vs expected
                 if op in ("Ne", "Eq") and ((fa == {"inputs"} and "input_regs" in cc) or (fc == {"inputs"} and "input_regs" in ca)
                                            or (fa >= {"inputs"} and fc and "inputs" not in fc and "input_regs" in (ca | cc))):
-                    rej = other if op == "Ne" else zero
-                    okc, _ = edge_fail_closed(b, sw_b, rej)
+                    okc = _all_closed("other" if op == "Ne" else "zero")
                     found["inputs_len"] = ("ok" if okc else "open", b, bi, "inputs.len() %s expected" % op)
+                # `p_out.len() == 0`, also as the slice pattern `[]` (PtrMetadata of the slice compared with 0)
+                if op in ("Eq", "Ne"):
+                    for x_, y_, fx_ in ((a, c, fa), (c, a, fc)):
+                        if _is_zero(b, y_) and x_["k"] != "const" and fx_ == {"p_out"} and _is_length(b, x_):
+                            okc = _all_closed("other" if op == "Eq" else "zero")
+                            found["p_out_empty"] = ("ok" if okc else "open", b, bi, "p_out.len() %s 0, empty edge %s" % (op, "only reaches Err" if okc else "can reach Ok"))
         for bi, t in b.calls():
             names = callee_names(t)
             # slice::get(idx) with None -> Err
